@@ -152,7 +152,7 @@ fn note_state(st: &mut Stats, p: &Proj, b: &Bundle, c: Option<&Call>) {
         *v = 0;
     }
     if !st.real_states.contains_key(&k) {
-        st.real_states.insert(k, json!({"path": b.path, "call": c}).to_string());
+        st.real_states.insert(k, json!({"path": b.path, "call": c.map(|x| json!(x)).unwrap_or(json!("-"))}).to_string());
     }
 }
 
